@@ -445,6 +445,9 @@ int main(int argc, char **argv)
     }
     usleep(20000);
     emitf("APP_GONE\n");
+    // gone=<n>: n more messages through the Qt macros after the QCoreApplication object has been destroyed (only used on
+    // paths where the stop has completed, so the logger is synchronous again: they must be delivered, synchronously)
+    if (geti("gone", 0) > 0) burst(geti("gone", 0), false);
     emitf("MAIN_RETURN\n");
     return 0;
 }
